@@ -20,6 +20,8 @@ import (
 func init() { register("C20", checkC20) }
 
 type c20Req struct {
+	maxTTL  int
+	dist    int
 	method  string
 	cap     string // sack-ok sack-ok-ts no-sackperm no-blocks closed no-handshake
 	fault   string // none factory filter1 filter2 send1 send3 read2 read9 read-late
@@ -63,10 +65,22 @@ func checkC20() fw.Check {
 					}
 				}
 			}
+			if tier == "thorough" {
+				base := append([]c20Req(nil), reqs...)
+				for _, shape := range [][2]int{{3, 2}, {12, 9}, {30, 4}, {255, 3}} {
+					for _, rq := range base {
+						rq.maxTTL, rq.dist = shape[0], shape[1]
+						reqs = append(reqs, rq)
+					}
+				}
+			}
 			var cases []fw.Case
 			for i, rq := range reqs {
 				rq := rq
-				id := fmt.Sprintf("C20/%d/%s/%s/%s/e%d/q%d", i, rq.method, rq.cap, rq.fault, rq.e2e, rq.queries)
+				if rq.maxTTL == 0 {
+					rq.maxTTL, rq.dist = 6, 4
+				}
+				id := fmt.Sprintf("C20/%d/%s/%s/%s/e%d/q%d/m%d", i, rq.method, rq.cap, rq.fault, rq.e2e, rq.queries, rq.maxTTL)
 				cases = append(cases, fw.Case{ID: id, Bubble: true, Run: func(c *fw.Ctx) { runC20(c, id, rq) }})
 			}
 			return cases
@@ -79,7 +93,7 @@ var errC20 = errors.New("verif-injected non-capability failure")
 func runC20(c *fw.Ctx, id string, rq c20Req) {
 	target := netip.AddrFrom4([4]byte{10, 204, byte(120 + c.Worker), 9})
 	port := uint16(21000 + c.Worker)
-	params := traceroute.TracerouteParams{Hostname: target.String(), Port: int(port), Protocol: "tcp", MinTTL: 1, MaxTTL: 6, Delay: 5,
+	params := traceroute.TracerouteParams{Hostname: target.String(), Port: int(port), Protocol: "tcp", MinTTL: 1, MaxTTL: rq.maxTTL, Delay: 5,
 		Timeout: 300 * time.Millisecond, TCPMethod: traceroute.TCPMethod(rq.method), TracerouteQueries: rq.queries, E2eQueries: rq.e2e}
 	needPeer := rq.cap != "closed"
 	env, err := newReqEnv(c, params, target, port, needPeer)
@@ -94,7 +108,7 @@ func runC20(c *fw.Ctx, id string, rq c20Req) {
 		env.peer.TSVal, env.peer.TSEcr = 1000, 2000
 		env.peer.ShowSynAck = rq.cap != "no-handshake"
 	}
-	dist := 4
+	dist := rq.dist
 	env.modelFor = func(k int, e *simEnv) *pathModel {
 		m := flowPath(k, e, dist, true, 5*time.Millisecond)
 		if e.spec.V.Proto == "sack" && rq.cap == "sack-ok-chatter" {
